@@ -245,6 +245,8 @@ def gen_step(rng, pool):
         if choice == "rmul":
             return Step("mul", [], [k, v], lambda kk, x: (float(kk) if isinstance(kk, Fraction) else kk) * x, "rescale")
         return Step("div", [], [v, k], lambda x, kk: x / (float(kk) if isinstance(kk, Fraction) else kk), "rescale")
+    if choice == "cat" and r == 0:
+        return None     # zero-dimensional tensors cannot be concatenated
     if choice in ("cat", "stack"):
         others = [w for w in pool if isinstance(w, torch.Tensor) and not is_qbits(w) and w.dtype == v.dtype and w.ndim == r and w.ndim >= 1]
         cands = [w for w in others if list(w.shape) == shape] if choice == "stack" else others
